@@ -66,6 +66,17 @@ def run(prop, tier, seed):
         bad = [b for b in bad if ".native." not in str(b[0])]
         if bad and not res.violations:
             res.translator_mismatches.append(f"{scenario} {cfg}: {bad[:2]}")
+    # native single-precision runs (the properties quantify over f32 and f64): facts only -- numeric comparisons in f32
+    # depend on conditioning and are not used as an oracle
+    for (scenario, cfg) in configs[: (3 if tier == "quick" else 8)]:
+        d32 = h.run("f32", scenario, cfg)
+        res.translator_checks += 1
+        if d32.get("crash"):
+            res.tool_errors.append(f"f32 run of {scenario} {cfg} crashed: {d32.get('log', '')[-200:]}")
+            continue
+        for (name, holds, detail) in d32["out"]["facts"]:
+            if not holds and (any(name.startswith(p) for p in spec["prefixes"]) or name == "no_panic"):
+                engine_r.record_violation(h, res, scenario, dict(cfg, mode="f32"), d32, name, "[f32] " + str(detail), spec["prefixes"], evidence.REPLAY_DIR, inputs={}, native_confirm=False)
     if getattr(h, "accessors", None) is not None and set(h.accessors) != set(h.ACCESSORS):
         res.skipped_accessors = sorted(set(h.ACCESSORS) - set(h.accessors))
     engine_r.vacuity_twins(h, res, prop, budget)
